@@ -3,13 +3,16 @@
 (* history (recorded by harness/checks/c05.py) is fed, event by event, into the history *)
 (* variables of DiscCache, and TLC evaluates every clause of the property in every      *)
 (* state of every trace.  A batch of traces of one (Kind, Tol) configuration per run.   *)
+(* A trace has a value kind (field vkind, see DiscCache).                                *)
 (* Events (JSON objects, all fields always present):                                    *)
 (*   op in "exec" | "lin"  : c (cell or "lit"), x = [xi, zi] the completed input AT CALL *)
 (*                            TIME, after (lattice index in the caller's array afterwards), *)
 (*                            hasOut, src, ran, req, jl, jsrc, lin  as in DiscCache!ret *)
 (*                            (src / jsrc = [0, 0] when the returned value is not the   *)
-(*                            value of any lattice point);                              *)
-(*   op = "mutate"          : c, v  (in-place edit of the caller's array)               *)
+(*                            value of any lattice point); relin: the members of a      *)
+(*                            process discipline were re-executed during linearization; *)
+(*   op = "mutate"          : c, v  (in-place edit of the caller's array), same (the    *)
+(*                            entries shown by the cache are those shown before the edit)*)
 (*   op in "clear" | "setcache" : the cache was emptied                                  *)
 (*   op = "reopen"          : same (entries of the new object = entries of the old one) *)
 (*   op = "setdiff"         : no effect on the history                                  *)
@@ -26,17 +29,18 @@ Rec(e) == [op |-> e.op, x |-> Pt(e.x), hasOut |-> e.hasOut, src |-> Pt(e.src), r
 TInit == /\ cell = [c \in Cells |-> IF c = "c1" THEN 1 ELSE 2]
          /\ HInit
          /\ tid \in 1..Len(Traces)
+         /\ vkind = Traces[tid].vkind
          /\ l = 1
 Step == l <= Len(T.events) /\ l' = l + 1 /\ UNCHANGED tid
 \* the recorded input of a call through a cell is the content of that cell (recorder sanity)
 TCall    == /\ Step /\ Ev.op \in {"exec", "lin"}
             /\ (Ev.c \in Cells => Ev.x[1] = cell[Ev.c])
-            /\ Observe(Rec(Ev))
+            /\ ObserveX(Rec(Ev), Ev.relin)
             \* after: content of the caller's array after the call (a self-coupled discipline whose body
             \* updates its input in place has changed it)
             /\ cell' = IF Ev.c \in Cells THEN [cell EXCEPT ![Ev.c] = Ev.after] ELSE cell
 TMutate  == /\ Step /\ Ev.op = "mutate"
-            /\ cell' = [cell EXCEPT ![Ev.c] = Ev.v] /\ UNCHANGED hvars
+            /\ cell' = [cell EXCEPT ![Ev.c] = Ev.v] /\ ObserveMutate(Ev.same)
 TReset   == /\ Step /\ Ev.op \in {"clear", "setcache"}
             /\ ObserveReset /\ UNCHANGED cell
 TReopen  == /\ Step /\ Ev.op = "reopen"
@@ -52,6 +56,7 @@ Diag == /\ Says("TransparentOut", TransparentOut)
         /\ Says("SimpleKeepsLast", SimpleKeepsLast)
         /\ Says("ReopenSame", ReopenSame)
         /\ Says("Uncached", Uncached)
+        /\ Says("CallerCannotCorrupt", CallerCannotCorrupt)
 \* acceptance: every event of every trace was consumed (registers; -workers 1)
 Reach == /\ TLCSet(tid, IF TLCGet(tid) < l THEN l ELSE TLCGet(tid))
          /\ Diag
